@@ -126,6 +126,10 @@ def text_templates(tier):
                 t[3], t[4] = t[3].replace("vtBytes(w, n)", "vtBytes(w, n%4)"), t[4].replace("vtBytes(w, n)", "vtBytes(w, n%4)")
             out.append(tuple(t))
         T = out
+    else:
+        # Quote walks the printability tables once per rune: three bytes in the thorough tier
+        T = [tuple([t[0], t[1], t[2], t[3].replace("vtBytes(w, n)", "vtBytes(w, n%4)"), t[4].replace("vtBytes(w, n)", "vtBytes(w, n%4)")] + list(t[5:]))
+             if t[0] == "strconv_Quote" else t for t in T]
     return T
 
 
